@@ -37,6 +37,11 @@ func (m *F81Model) Distance(seq1 []uint8, seq2 []uint8, weights []float64) (floa
 
 	diff, total := countDiffs(seq1, seq2, m.selectedSites, weights, false)
 	diff = diff / total
+	// Undefined distance (saturation, no comparable site, a single base in the
+	// alignment): see jc.go
+	if !(1.-diff/m.b1 > 0) {
+		return math.Inf(1), nil
+	}
 
 	if m.gamma {
 		dist = 1. * m.b1 * m.alpha * (math.Pow(1.-diff/m.b1, -1./m.alpha) - 1.)
